@@ -276,9 +276,10 @@ macro_rules! impl_cache {
                 Q: core::hash::Hash + Eq + ?Sized,
             {
                 let (index, conflict) = self.key_to_hash.build_key(key);
-                self.store
-                    .get(&index, conflict)
-                    .and_then(|_| self.store.expiration(&index).map(|time| time.get_ttl()))
+                // one lookup under one shard guard: taking the shard's read lock a second time while
+                // the first guard is alive deadlocks as soon as a writer (the processor applying an
+                // item for the same shard) has queued up in between
+                self.store.get(&index, conflict).map(|v| v.ttl())
             }
 
             /// `max_cost` returns the max cost of the cache.
@@ -596,9 +597,10 @@ macro_rules! impl_async_cache {
                 Q: core::hash::Hash + Eq + ?Sized,
             {
                 let (index, conflict) = self.key_to_hash.build_key(key);
-                self.store
-                    .get(&index, conflict)
-                    .and_then(|_| self.store.expiration(&index).map(|time| time.get_ttl()))
+                // one lookup under one shard guard: taking the shard's read lock a second time while
+                // the first guard is alive deadlocks as soon as a writer (the processor applying an
+                // item for the same shard) has queued up in between
+                self.store.get(&index, conflict).map(|v| v.ttl())
             }
 
             /// `max_cost` returns the max cost of the cache.
